@@ -105,6 +105,27 @@ func discharge(o *Obl, dir string, timeout int) {
 	if o.ExpectSat && timeout > 8 {
 		timeout = 8 // satisfiability (vacuity) checks: an answer within seconds or "inconclusive"
 	}
+	// cheapest attempt: the goal may follow from the definitions alone (no assumptions): sound, and it avoids
+	// dragging non-linear or quantified context into trivial goals
+	if !o.ExpectSat && !o.Isolated && o.Raw == "" {
+		o.Isolated = true
+		itext, ierr := o.smtText(false)
+		o.Isolated = false
+		if ierr == nil {
+			ifile := strings.TrimSuffix(file, ".smt2") + ".noassume.smt2"
+			if os.WriteFile(ifile, []byte(itext), 0o644) == nil {
+				ir := runSolver(context.Background(), solvers[0], ifile, 2)
+				if ir.status == "unsat" {
+					o.Seconds = time.Since(start).Seconds()
+					o.Solver = ir.solver + " (definitions only)"
+					o.Result = "unsat"
+					os.Remove(ifile)
+					return
+				}
+				os.Remove(ifile)
+			}
+		}
+	}
 	// fast path
 	quick := 4
 	if quick > timeout {
